@@ -34,7 +34,9 @@ def one(name):
     shutil.rmtree(src, ignore_errors=True)
     os.makedirs(src)
     shutil.copytree("/repo/geometer", os.path.join(src, "geometer"), ignore=shutil.ignore_patterns("__pycache__"))
-    rc, log = run(f"patch -p1 --fuzz=3 --no-backup-if-mismatch -i {os.path.join(d, 'patch.diff')}", cwd=src)
+    # a patch whose lines were rewritten by a later "fix:" commit is kept in a re-based form (same mutation, current code)
+    pf = os.path.join(d, "patch_rebased.diff") if os.path.exists(os.path.join(d, "patch_rebased.diff")) else os.path.join(d, "patch.diff")
+    rc, log = run(f"patch -p1 --fuzz=3 --no-backup-if-mismatch -i {pf}", cwd=src)
     res = {"property": pid, "applies": rc == 0}
     if rc == 0:
         env = dict(os.environ, PYTHONPATH=src, PYTHONDONTWRITEBYTECODE="1")
